@@ -165,6 +165,94 @@ def check_keyed(case, tr):
     return res
 
 
+def gen_live_zero_case(rng, name):
+    """reduce(f, tsd, zero) whose zero is a LIVE time-series: it ticks, and it is re-pointed (a selection between two sources) while
+    the collection is empty, holds one element, holds several. Oracle: the documented zero rules with the zero's current value."""
+    start, end = 0, rng.choice([24, 36])
+    c = Case(name, start, end)
+    fn = rng.choice(["sum", "add", "fn2:0"])
+    c.scripts[9] = [(t, t) for t in range(start, end)]
+    for u in (31, 32):
+        c.scripts[u] = [(0, u * 100)] + [(t, u * 100 + t) for t in sorted(rng.sample(range(1, end), rng.choice([2, 4, 7])))]
+    val = rng.choice([0, 1])
+    cs = [(0, val)]
+    for t in sorted(rng.sample(range(2, end), rng.choice([3, 5, 8]))):
+        val = 1 - val
+        cs.append((t, val))
+    c.scripts[33] = cs
+    # the collection spends long stretches empty and with a single element
+    sc, live = [], set()
+    for t in sorted(rng.sample(range(1, end), rng.choice([5, 8, 12]))):
+        r = rng.random()
+        if live and r < 0.45:
+            k = rng.choice(sorted(live))
+            live.discard(k)
+            sc.append(f"{t}|x[{k}]")
+        elif r < 0.8 or not live:
+            k = rng.randrange(3)
+            live.add(k)
+            sc.append(f"{t}|[{k}]={rng.randint(1, 40)}")
+        else:
+            sc.append(f"{t}|c")
+            live.clear()
+    c.cscripts[1] = sc
+    c.graphs["main"] = [S("clk", "src", uid=9, mode=1), S("z1", "src", uid=31, mode=1), S("z2", "src", uid=32, mode=1), S("zc", "src", uid=33, mode=1),
+                        S("zr", "ite", "zc", "z1", "z2", uid=34), S("d", "csrc", shape="tsd", uid=1), S("r", "reduce", "d", fn=fn, zts="zr"),
+                        S("", "cprobe", "r", "clk", uid=20), S("", "rec", "r", uid=21)]
+    c.graphs["fn0"] = [S("s", "sum2", "p0", "p1"), S("", "RET", "s")]
+    c.meta.update(live_zero=1, shape="tsd", fn=fn, zero=None, big=False)
+    return c
+
+
+def check_live_zero(case, tr):
+    res = Result(signature=case.text().split("\n", 1)[1])
+    run = tr.runs[0]
+    if tr.build_error or run.error:
+        res.violations.append(Violation(f"build/run failed: {tr.build_error or run.error}"))
+        return res
+    probe = {t: d for t, d, _ in parse_dumps(run).get(20, [])}
+    wl = dict(write_log(run).get(1, []))
+    node = Node(SHAPES["tsd"])
+    z = {31: None, 32: None}
+    zs = {u: dict(case.scripts[u]) for u in (31, 32)}
+    cond = dict(case.scripts[33])
+    sel = None
+    C = {"live_zero_cycles_checked": 0, "live_zero_repoints_while_empty": 0, "live_zero_repoints_with_one_element": 0, "live_zero_ticks_while_empty": 0}
+    for t in range(case.start, case.end):
+        for op in wl.get(t, []):
+            node.apply(op, t)
+        for u in (31, 32):
+            if t in zs[u]:
+                z[u] = zs[u][t]
+        repoint = False
+        if t in cond:
+            new = 31 if cond[t] != 0 else 32
+            repoint, sel = (sel is not None and new != sel), new
+        vals = [c.val for c in node.children.values() if c.val is not None]
+        zero = z[sel] if sel is not None else None
+        if t == case.start or zero is None:
+            continue
+        if repoint and not vals:
+            C["live_zero_repoints_while_empty"] += 1
+        if repoint and len(vals) == 1:
+            C["live_zero_repoints_with_one_element"] += 1
+        if not vals and not repoint and t in zs[sel]:
+            C["live_zero_ticks_while_empty"] += 1
+        exp = zero if not vals else (vals[0] + zero if len(vals) == 1 else sum(vals))
+        d = probe.get(t)
+        if d is None:
+            res.violations.append(Violation(f"probe not woken at t={t}"))
+            continue
+        C["live_zero_cycles_checked"] += 1
+        got = int(d["val"]) if d["v"] else None
+        if got != exp and len(res.violations) < 5:
+            res.violations.append(Violation(f"t={t}: reduce with a live zero (currently {zero}{', re-pointed in this cycle' if repoint else ''}) over live values "
+                                            f"{sorted(vals)} reads {'invalid' if got is None else got}, expected {exp}"))
+    res.counters = C
+    res.nontrivial = C["live_zero_repoints_while_empty"] >= 1
+    return res
+
+
 def contiguous_history(rng, start, end, max_n=7, tail_shrink=False):
     """Key histories over the contiguous key range 0..n-1 (what an ordered reduction accepts): grow at the top, shrink from the top,
     update in place; sizes revisit earlier maxima and shrink right after a new maximum."""
@@ -267,7 +355,8 @@ def check_ordered(case, tr):
 def generate(rng, tier, seed):
     n = scaled(250 if tier == "quick" else 4000)
     return [gen_case11(rng, f"c11_{seed}_{k}", k) for k in range(n)] + [gen_keyed_case(rng, f"c11_{seed}_kd{k}") for k in range(n // 4)] + \
-        [gen_ordered_case(rng, f"c11_{seed}_or{k}") for k in range(n // 4)]
+        [gen_ordered_case(rng, f"c11_{seed}_or{k}") for k in range(n // 4)] + \
+        [gen_live_zero_case(rng, f"c11_{seed}_lz{k}") for k in range(n // 5)]
 
 
 def expected(values, fn, zero):
@@ -288,6 +377,8 @@ def check(case, tr):
         return check_keyed(case, tr)
     if case.meta.get("ordered"):
         return check_ordered(case, tr)
+    if case.meta.get("live_zero"):
+        return check_live_zero(case, tr)
     run = tr.runs[0]
     if run.error:
         res.violations.append(Violation(f"run failed: {run.error[:300]}"))
